@@ -24,7 +24,7 @@ func init() {
 		Level: "model_checking",
 		Rule: "E-SEQ: breadth-first search over ban histories (administrator disconnect with no/temporary/permanent ban, reconnect attempts from the banned address, the same host on another port and two look-alike addresses with right/wrong password, " +
 			"server restart from the files, virtual clock advances of 1 s / 25 min / 31 min / 24 h) replayed on a fresh real server under a virtual clock; door behaviour compared with a reference ban model after every operation; " +
-			"states deduplicated by ban table (remaining time), connected set and restart count",
+			"states deduplicated by ban table (remaining time), connected set and restart count; also peers that stay silent after the handshake, kicks while the ban file cannot be written, two users behind one address banned permanently and temporarily in either order; E-SCHED: two concurrent bans, ban-list reload against connections",
 		Assumptions:    []string{"instants within 3 s of a ban's expiry are not probed", "4 peer addresses; one target user"},
 		Run:            runC17,
 		Replay:         replayC17,
